@@ -91,7 +91,7 @@ static Verdict run_c11(const Case &c)
   }
   v.classes.push_back("kind=" + kind);
   v.weight = files.size();
-  std::vector<DV> res = batch_dv(files, {key}, T, chunk);
+  std::vector<DV> res = batch_dv(files, {key}, T, chunk, (int)c.geti("refill", 0));
   size_t passing_magic = 0;
   for (size_t i = 0; i < files.size(); i++)
   {
